@@ -19,6 +19,22 @@ theorem NoNetwork_nil : NoNetwork [] := by intro e he; cases he
 theorem NoNetwork_extra {extra : List Ev} (h : ∀ e ∈ extra, Ev.isExtra e = true) : NoNetwork extra :=
   fun e he => (extra_not_network e (h e he)).1
 
+theorem Silent_append {a b : List Ev} (ha : Silent a) (hb : Silent b) : Silent (a ++ b) := by
+  intro e he
+  rcases List.mem_append.mp he with h | h
+  · exact ha e h
+  · exact hb e h
+
+theorem Silent_nil : Silent [] := by intro e he; cases he
+
+theorem Silent_extra {extra : List Ev} (h : ∀ e ∈ extra, Ev.isExtra e = true) : Silent extra :=
+  fun e he => extra_not_network e (h e he)
+
+theorem rxWss_deb (s : State) (b0 b1 t : Nat) : (rxWss s b0 b1 t).1.deb = s.deb := by
+  simp only [rxWss]
+  repeat' split
+  all_goals rfl
+
 /-- the invariant carried through a history of station values and isolated glitches -/
 structure GInv (st : Carrier → Nat) (id mask : Nat) (lg : Carrier → Option Nat) (s : State) : Prop where
   nuid : s.net.nuid = id
@@ -27,80 +43,171 @@ structure GInv (st : Carrier → Nat) (id mask : Nat) (lg : Carrier → Option N
   stored : ∀ c, cniOf c s.net = st c ∨ lg c = some (cniOf c s.net)
 
 /-- one debounce step on a station value -/
-theorem ginv_good (lk : Lookup) (st : Carrier → Nat) (id mask : Nat)
-    (lg : Carrier → Option Nat) (s : State) (c : Carrier) (hagree : (lk c (st c)).1 = id) (inv : GInv st id mask lg s) :
-    GInv st id mask (fun c' => if c' = c then none else lg c') (cniRx lk c (st c) s).1 ∧
-    NoNetwork (cniRx lk c (st c) s).2 ∧ (cniRx lk c (st c) s).1.cached = s.cached := by
+theorem ginv_good (cfg : Cfg) (st : Carrier → Nat) (id mask : Nat)
+    (lg : Carrier → Option Nat) (s : State) (c : Carrier) (hagree : (cfg.lk c (st c)).1 = id) (inv : GInv st id mask lg s) :
+    GInv st id mask (fun c' => if c' = c then none else lg c') (cniRx cfg c (st c) s).1 ∧
+    NoNetwork (cniRx cfg c (st c) s).2 ∧ (cniRx cfg c (st c) s).1.cached = s.cached := by
   by_cases h : st c = cniOf c s.net
-  · by_cases h2 : s.net.cycle = 1
-    · have h3 : (lk c (st c)).1 = s.net.nuid := by rw [hagree, inv.nuid]
-      rw [cniRx_same lk c (st c) s h h2 h3]
-      refine ⟨⟨inv.nuid, inv.cd, inv.mask, ?_⟩, ?_, rfl⟩
+  · by_cases h2 : pending cfg c s
+    · have h3 : (cfg.lk c (st c)).1 = s.net.nuid := by rw [hagree, inv.nuid]
+      rw [cniRx_same cfg c (st c) s h h2 h3]
+      refine ⟨⟨by rw [markDone_nuid]; exact inv.nuid, by rw [markDone_chswcd]; exact inv.cd,
+               by rw [markDone_mask]; exact inv.mask, ?_⟩, ?_, by rw [markDone_cached]⟩
       · intro c'
-        simp only [cniOf_name_cycle]
+        simp only [markDone_cniOf, cniOf_name]
         by_cases hc : c' = c
         · left; rw [hc]; exact h.symm
         · simp only [hc, if_false]; exact inv.stored c'
       · intro e he; simp at he; rw [he]; rfl
-    · rw [cniRx_idle lk c (st c) s h h2]
+    · rw [cniRx_idle cfg c (st c) s h h2]
       refine ⟨⟨inv.nuid, inv.cd, inv.mask, ?_⟩, NoNetwork_nil, rfl⟩
       intro c'
       by_cases hc : c' = c
       · left; rw [hc]; exact h.symm
       · simp only [hc, if_false]; exact inv.stored c'
-  · rw [cniRx_change lk c (st c) s h]
-    refine ⟨⟨by show (setCni c s.net (st c)).nuid = id; rw [setCni_nuid]; exact inv.nuid, inv.cd, inv.mask, ?_⟩, NoNetwork_nil, rfl⟩
+  · rw [cniRx_change cfg c (st c) s h]
+    refine ⟨⟨by rw [markChange_nuid]; exact inv.nuid, by rw [markChange_chswcd]; exact inv.cd,
+             by rw [markChange_mask]; exact inv.mask, ?_⟩, NoNetwork_nil, by rw [markChange_cached]⟩
     intro c'
-    simp only [cniOf_cycle]
     by_cases hc : c' = c
-    · left; rw [hc]; exact cniOf_setCni_self c s.net (st c)
-    · simp only [hc, if_false]; rw [cniOf_setCni_other c c' s.net (st c) hc]; exact inv.stored c'
+    · left; rw [hc]; exact markChange_cniOf_self cfg c (st c) s
+    · simp only [hc, if_false]; rw [markChange_cniOf_other cfg c (st c) s c' hc]; exact inv.stored c'
 
 /-- one debounce step on a deviating value that is not the one stored -/
-theorem ginv_glitch (lk : Lookup) (st : Carrier → Nat) (id mask : Nat)
+theorem ginv_glitch (cfg : Cfg) (st : Carrier → Nat) (id mask : Nat)
     (lg : Carrier → Option Nat) (s : State) (c : Carrier) (v : Nat) (hv : v ≠ st c) (hlg : lg c ≠ some v)
     (inv : GInv st id mask lg s) :
-    GInv st id mask (fun c' => if c' = c then some v else lg c') (cniRx lk c v s).1 ∧
-    NoNetwork (cniRx lk c v s).2 ∧ (cniRx lk c v s).1.cached = s.cached := by
+    GInv st id mask (fun c' => if c' = c then some v else lg c') (cniRx cfg c v s).1 ∧
+    NoNetwork (cniRx cfg c v s).2 ∧ (cniRx cfg c v s).1.cached = s.cached := by
   have h : v ≠ cniOf c s.net := by
     intro e
     rcases inv.stored c with h1 | h1
     · exact hv (e.trans h1)
     · exact hlg (by rw [h1, e])
-  rw [cniRx_change lk c v s h]
-  refine ⟨⟨by show (setCni c s.net v).nuid = id; rw [setCni_nuid]; exact inv.nuid, inv.cd, inv.mask, ?_⟩, NoNetwork_nil, rfl⟩
+  rw [cniRx_change cfg c v s h]
+  refine ⟨⟨by rw [markChange_nuid]; exact inv.nuid, by rw [markChange_chswcd]; exact inv.cd,
+           by rw [markChange_mask]; exact inv.mask, ?_⟩, NoNetwork_nil, by rw [markChange_cached]⟩
   intro c'
-  simp only [cniOf_cycle]
   by_cases hc : c' = c
-  · right; rw [hc]; simp [cniOf_setCni_self]
-  · simp only [hc, if_false]; rw [cniOf_setCni_other c c' s.net v hc]; exact inv.stored c'
+  · right; rw [hc]; simp [markChange_cniOf_self]
+  · simp only [hc, if_false]; rw [markChange_cniOf_other cfg c v s c' hc]; exact inv.stored c'
 
 theorem ginv_transport (st : Carrier → Nat) (id mask : Nat) (lg : Carrier → Option Nat) (s s' : State)
     (inv : GInv st id mask lg s) (hn : s'.net = s.net) (hc : s'.chswcd = s.chswcd) (hm : s'.mask = s.mask) :
     GInv st id mask lg s' :=
   ⟨by rw [hn]; exact inv.nuid, by rw [hc]; exact inv.cd, by rw [hm]; exact inv.mask, by rw [hn]; exact inv.stored⟩
 
-theorem glitch_run (cfg : Cfg) (st : Carrier → Nat) (ok : Carrier → Bool) (id mask : Nat)
-    (hagree : ∀ c, ok c = true → (cfg.lk c (st c)).1 = id) :
-    ∀ (atoms : List Atom) (s : State) (lg : Carrier → Option Nat), GInv st id mask lg s →
+/-! ### the per-carrier shape (F11 repaired): no hypothesis about ids -/
+
+/-- invariant of the per-carrier shape: every carrier has announced (or never needed to announce) the station's
+    value, and a repeat is awaited only while a deviating word is the stored one -/
+structure PInv (cfg : Cfg) (st : Carrier → Nat) (id mask : Nat) (lg : Carrier → Option Nat) (s : State) : Prop where
+  nuid : s.net.nuid = id
+  cd : s.chswcd = 0
+  mask : s.mask = mask
+  stored : ∀ c, cniOf c s.net = st c ∨ lg c = some (cniOf c s.net)
+  ann : ∀ c, annOf c s.deb = st c
+  pend : ∀ c, pending cfg c s → cniOf c s.net ≠ st c
+
+theorem pinv_good (cfg : Cfg) (hp : cfg.perCarrier = true) (st : Carrier → Nat) (id mask : Nat)
+    (lg : Carrier → Option Nat) (s : State) (c : Carrier) (inv : PInv cfg st id mask lg s) :
+    PInv cfg st id mask (fun c' => if c' = c then none else lg c') (cniRx cfg c (st c) s).1 ∧
+    Silent (cniRx cfg c (st c) s).2 ∧ (cniRx cfg c (st c) s).1.cached = s.cached := by
+  by_cases h : st c = cniOf c s.net
+  · have h2 : ¬ pending cfg c s := fun hpnd => inv.pend c hpnd h.symm
+    rw [cniRx_idle cfg c (st c) s h h2]
+    refine ⟨⟨inv.nuid, inv.cd, inv.mask, ?_, inv.ann, inv.pend⟩, Silent_nil, rfl⟩
+    intro c'
+    by_cases hc : c' = c
+    · left; rw [hc]; exact h.symm
+    · simp only [hc, if_false]; exact inv.stored c'
+  · rw [cniRx_change cfg c (st c) s h]
+    refine ⟨⟨by rw [markChange_nuid]; exact inv.nuid, by rw [markChange_chswcd]; exact inv.cd,
+             by rw [markChange_mask]; exact inv.mask, ?_, ?_, ?_⟩, Silent_nil, by rw [markChange_cached]⟩
+    · intro c'
+      by_cases hc : c' = c
+      · left; rw [hc]; exact markChange_cniOf_self cfg c (st c) s
+      · simp only [hc, if_false]; rw [markChange_cniOf_other cfg c (st c) s c' hc]; exact inv.stored c'
+    · intro c'; rw [markChange_annOf]; exact inv.ann c'
+    · intro c' hpnd
+      by_cases hc : c' = c
+      · subst hc
+        have := (markChange_pending_self cfg c' (st c') s).mp hpnd
+        rcases this with e | e
+        · rw [hp] at e; cases e
+        · exact absurd (inv.ann c').symm e
+      · rw [markChange_pending_other cfg c (st c) s c' hc hp] at hpnd
+        rw [markChange_cniOf_other cfg c (st c) s c' hc]; exact inv.pend c' hpnd
+
+theorem pinv_glitch (cfg : Cfg) (hp : cfg.perCarrier = true) (st : Carrier → Nat) (id mask : Nat)
+    (lg : Carrier → Option Nat) (s : State) (c : Carrier) (v : Nat) (hv : v ≠ st c) (hlg : lg c ≠ some v)
+    (inv : PInv cfg st id mask lg s) :
+    PInv cfg st id mask (fun c' => if c' = c then some v else lg c') (cniRx cfg c v s).1 ∧
+    Silent (cniRx cfg c v s).2 ∧ (cniRx cfg c v s).1.cached = s.cached := by
+  have h : v ≠ cniOf c s.net := by
+    intro e
+    rcases inv.stored c with h1 | h1
+    · exact hv (e.trans h1)
+    · exact hlg (by rw [h1, e])
+  rw [cniRx_change cfg c v s h]
+  refine ⟨⟨by rw [markChange_nuid]; exact inv.nuid, by rw [markChange_chswcd]; exact inv.cd,
+           by rw [markChange_mask]; exact inv.mask, ?_, ?_, ?_⟩, Silent_nil, by rw [markChange_cached]⟩
+  · intro c'
+    by_cases hc : c' = c
+    · right; rw [hc]; simp [markChange_cniOf_self]
+    · simp only [hc, if_false]; rw [markChange_cniOf_other cfg c v s c' hc]; exact inv.stored c'
+  · intro c'; rw [markChange_annOf]; exact inv.ann c'
+  · intro c' hpnd
+    by_cases hc : c' = c
+    · subst hc; rw [markChange_cniOf_self]; exact hv
+    · rw [markChange_pending_other cfg c v s c' hc hp] at hpnd
+      rw [markChange_cniOf_other cfg c v s c' hc]; exact inv.pend c' hpnd
+
+theorem pinv_transport (cfg : Cfg) (st : Carrier → Nat) (id mask : Nat) (lg : Carrier → Option Nat) (s s' : State)
+    (inv : PInv cfg st id mask lg s) (hn : s'.net = s.net) (hc : s'.chswcd = s.chswcd) (hm : s'.mask = s.mask)
+    (hd : s'.deb = s.deb) : PInv cfg st id mask lg s' :=
+  ⟨by rw [hn]; exact inv.nuid, by rw [hc]; exact inv.cd, by rw [hm]; exact inv.mask, by rw [hn]; exact inv.stored,
+   by rw [hd]; exact inv.ann,
+   by intro c hpnd; rw [hn]; apply inv.pend c; unfold pending at hpnd ⊢; rw [hn, hd] at hpnd; exact hpnd⟩
+
+/-- The induction over atom histories, for any invariant `I` that lives on (network record, countdown, mask,
+    per-carrier state), with step lemmas for a station value and for an isolated deviating word, and any
+    predicate `Q` on event lists that holds for the empty list and for PROG_ID / LOCAL_TIME / ASPECT events and
+    is closed under concatenation. -/
+theorem glitch_run_gen (cfg : Cfg) (st : Carrier → Nat) (ok : Carrier → Bool) (id mask : Nat)
+    (I : (Carrier → Option Nat) → State → Prop) (Q : List Ev → Prop)
+    (Qnil : Q []) (Qapp : ∀ a b, Q a → Q b → Q (a ++ b))
+    (Qfree : ∀ l : List Ev, (∀ e ∈ l, e.isNetwork = false ∧ e.isNetworkId = false) → Q l)
+    (Ifacts : ∀ lg s, I lg s → s.net.nuid = id ∧ s.chswcd = 0 ∧ s.mask = mask)
+    (Itrans : ∀ lg s s', I lg s → s'.net = s.net → s'.chswcd = s.chswcd → s'.mask = s.mask → s'.deb = s.deb → I lg s')
+    (Igood : ∀ lg s c, ok c = true → I lg s → I (fun c' => if c' = c then none else lg c') (cniRx cfg c (st c) s).1 ∧
+      Q (cniRx cfg c (st c) s).2 ∧ (cniRx cfg c (st c) s).1.cached = s.cached)
+    (Iglitch : ∀ lg s c v, v ≠ st c → lg c ≠ some v → I lg s →
+      I (fun c' => if c' = c then some v else lg c') (cniRx cfg c v s).1 ∧
+      Q (cniRx cfg c v s).2 ∧ (cniRx cfg c v s).1.cached = s.cached) :
+    ∀ (atoms : List Atom) (s : State) (lg : Carrier → Option Nat), I lg s →
       RegularFrom s.time atoms → NoRepeatedGlitch st ok mask lg atoms →
-      NoNetwork (runAtoms cfg s atoms).2 ∧ s.cached ⊆ (runAtoms cfg s atoms).1.cached ∧
+      Q (runAtoms cfg s atoms).2 ∧ s.cached ⊆ (runAtoms cfg s atoms).1.cached ∧
       (runAtoms cfg s atoms).1.net.nuid = id := by
+  have Qextra : ∀ extra : List Ev, (∀ e ∈ extra, Ev.isExtra e = true) → Q extra :=
+    fun extra h => Qfree extra (fun e he => extra_not_network e (h e he))
   intro atoms
   induction atoms with
-  | nil => intro s lg inv _ _; exact ⟨NoNetwork_nil, List.Subset.refl _, inv.nuid⟩
+  | nil => intro s lg inv _ _; exact ⟨Qnil, List.Subset.refl _, (Ifacts lg s inv).1⟩
   | cons a as ih =>
     intro s lg inv hreg hg
+    have hcd := (Ifacts lg s inv).2.1
+    have hmask := (Ifacts lg s inv).2.2
     cases a with
     | tick t =>
       simp only [RegularFrom] at hreg
       simp only [NoRepeatedGlitch] at hg
-      have hp := prologue_regular s t inv.cd hreg.1
+      have hp := prologue_regular s t hcd hreg.1
       simp only [runAtoms, stepAtom, hp]
-      have inv' : GInv st id mask lg { s with time := if t > s.time then t else s.time } :=
-        ginv_transport st id mask lg s _ inv rfl rfl rfl
+      have inv' : I lg { s with time := if t > s.time then t else s.time } :=
+        Itrans lg s _ inv rfl rfl rfl rfl
       have r := ih _ lg inv' hreg.2 hg
-      exact ⟨NoNetwork_append NoNetwork_nil r.1, r.2.1, r.2.2⟩
+      exact ⟨Qapp _ _ Qnil r.1, r.2.1, r.2.2⟩
     | mask m => simp [NoRepeatedGlitch] at hg
     | chsw => simp [NoRepeatedGlitch] at hg
     | line t l =>
@@ -113,11 +220,11 @@ theorem glitch_run (cfg : Cfg) (st : Carrier → Nat) (ok : Carrier → Bool) (i
         have k := rxWss_keeps s b0 b1 t
         have hg2 := hg.2
         simp only [lineCni] at hg2
-        have inv' : GInv st id mask lg (rxLine cfg t s (.wss b0 b1)).1 :=
-          ginv_transport st id mask lg s _ inv k.1 k.2.2.1 k.2.2.2.1
+        have inv' : I lg (rxLine cfg t s (.wss b0 b1)).1 :=
+          Itrans lg s _ inv k.1 k.2.2.1 k.2.2.2.1 (rxWss_deb s b0 b1 t)
         have ht : (rxLine cfg t s (.wss b0 b1)).1.time = s.time := k.2.2.2.2.1
         have r := ih _ lg inv' (by rw [ht]; exact hreg) hg2
-        refine ⟨NoNetwork_append (fun e he => (k.2.2.2.2.2 e he).1) r.1, ?_, r.2.2⟩
+        refine ⟨Qapp _ _ (Qfree _ k.2.2.2.2.2) r.1, ?_, r.2.2⟩
         have hc : (rxLine cfg t s (.wss b0 b1)).1.cached = s.cached := k.2.1
         rw [← hc]; exact r.2.1
       | page pgno =>
@@ -125,10 +232,10 @@ theorem glitch_run (cfg : Cfg) (st : Carrier → Nat) (ok : Carrier → Bool) (i
         simp only [lineCni] at hg2
         rcases (rxLine_page cfg t s pgno).symm with e | e
         · rw [e]
-          have inv' : GInv st id mask lg { s with cached := if s.cached.contains pgno then s.cached else pgno :: s.cached } :=
-            ginv_transport st id mask lg s _ inv rfl rfl rfl
+          have inv' : I lg { s with cached := if s.cached.contains pgno then s.cached else pgno :: s.cached } :=
+            Itrans lg s _ inv rfl rfl rfl rfl
           have r := ih _ lg inv' hreg hg2
-          refine ⟨NoNetwork_append NoNetwork_nil r.1, ?_, r.2.2⟩
+          refine ⟨Qapp _ _ Qnil r.1, ?_, r.2.2⟩
           refine List.Subset.trans ?_ r.2.1
           intro x hx
           simp only []
@@ -137,79 +244,108 @@ theorem glitch_run (cfg : Cfg) (st : Carrier → Nat) (ok : Carrier → Bool) (i
           · exact List.mem_cons_of_mem _ hx
         · rw [e]
           have r := ih _ lg inv hreg hg2
-          exact ⟨NoNetwork_append NoNetwork_nil r.1, r.2.1, r.2.2⟩
+          exact ⟨Qapp _ _ Qnil r.1, r.2.1, r.2.2⟩
       | vps b =>
         have k := rxLine_cniStep cfg t s (.vps b) (Or.inl ⟨b, rfl⟩)
+        have kd := rxLine_cniStep_deb cfg t s (.vps b) (Or.inl ⟨b, rfl⟩)
         have hg2 := hg.2
-        rw [← inv.mask] at hg2
+        rw [← hmask] at hg2
         obtain ⟨extra, hev, hex⟩ := k.2.2.2.2.2.2.2.2
-        generalize hq : lineCni s.mask (Line.vps b) = q at k hg2 hev
+        generalize hq : lineCni s.mask (Line.vps b) = q at k kd hg2 hev
         cases q with
         | none => simp [lineCni] at hq
         | some p =>
           obtain ⟨c, v⟩ := p
-          simp only [cniStep] at k hev
+          simp only [cniStep] at k kd hev
           simp only [] at hg2
           by_cases hv : v = st c
           · simp only [hv, if_true] at hg2
-            have g := ginv_good cfg.lk st id mask lg s c (hagree c hg2.1) inv
-            rw [hv] at k hev
-            have inv' : GInv st id mask (fun c' => if c' = c then none else lg c') (rxLine cfg t s (.vps b)).1 :=
-              ginv_transport st id mask _ _ _ g.1 k.1 k.2.2.1 (by rw [k.2.2.2.1, cniRx_mask])
-            have r := ih _ _ inv' (by rw [k.2.2.2.2.1]; exact hreg) (by have := hg2.2; rw [inv.mask] at this; exact this)
+            have g := Igood lg s c hg2.1 inv
+            rw [hv] at k kd hev
+            have inv' : I (fun c' => if c' = c then none else lg c') (rxLine cfg t s (.vps b)).1 :=
+              Itrans _ _ _ g.1 k.1 k.2.2.1 (by rw [k.2.2.2.1, cniRx_mask]) kd
+            have r := ih _ _ inv' (by rw [k.2.2.2.2.1]; exact hreg) (by have := hg2.2; rw [hmask] at this; exact this)
             refine ⟨?_, ?_, r.2.2⟩
-            · rw [hev]; exact NoNetwork_append (NoNetwork_append g.2.1 (NoNetwork_extra hex)) r.1
+            · rw [hev]; exact Qapp _ _ (Qapp _ _ g.2.1 (Qextra _ hex)) r.1
             · have hc : (rxLine cfg t s (.vps b)).1.cached = s.cached := by rw [k.2.1, g.2.2]
               rw [← hc]; exact r.2.1
           · simp only [hv, if_false] at hg2
-            have g := ginv_glitch cfg.lk st id mask lg s c v hv hg2.1 inv
-            have inv' : GInv st id mask (fun c' => if c' = c then some v else lg c') (rxLine cfg t s (.vps b)).1 :=
-              ginv_transport st id mask _ _ _ g.1 k.1 k.2.2.1 (by rw [k.2.2.2.1, cniRx_mask])
-            have r := ih _ _ inv' (by rw [k.2.2.2.2.1]; exact hreg) (by have := hg2.2; rw [inv.mask] at this; exact this)
+            have g := Iglitch lg s c v hv hg2.1 inv
+            have inv' : I (fun c' => if c' = c then some v else lg c') (rxLine cfg t s (.vps b)).1 :=
+              Itrans _ _ _ g.1 k.1 k.2.2.1 (by rw [k.2.2.2.1, cniRx_mask]) kd
+            have r := ih _ _ inv' (by rw [k.2.2.2.2.1]; exact hreg) (by have := hg2.2; rw [hmask] at this; exact this)
             refine ⟨?_, ?_, r.2.2⟩
-            · rw [hev]; exact NoNetwork_append (NoNetwork_append g.2.1 (NoNetwork_extra hex)) r.1
+            · rw [hev]; exact Qapp _ _ (Qapp _ _ g.2.1 (Qextra _ hex)) r.1
             · have hc : (rxLine cfg t s (.vps b)).1.cached = s.cached := by rw [k.2.1, g.2.2]
               rw [← hc]; exact r.2.1
       | ttx b =>
         have k := rxLine_cniStep cfg t s (.ttx b) (Or.inr ⟨b, rfl⟩)
+        have kd := rxLine_cniStep_deb cfg t s (.ttx b) (Or.inr ⟨b, rfl⟩)
         have hg2 := hg.2
-        rw [← inv.mask] at hg2
+        rw [← hmask] at hg2
         obtain ⟨extra, hev, hex⟩ := k.2.2.2.2.2.2.2.2
-        generalize hq : lineCni s.mask (Line.ttx b) = q at k hg2 hev
+        generalize hq : lineCni s.mask (Line.ttx b) = q at k kd hg2 hev
         cases q with
         | none =>
-          simp only [cniStep] at k hev
+          simp only [cniStep] at k kd hev
           simp only [] at hg2
-          have inv' : GInv st id mask lg (rxLine cfg t s (.ttx b)).1 :=
-            ginv_transport st id mask _ _ _ inv k.1 k.2.2.1 k.2.2.2.1
-          have r := ih _ _ inv' (by rw [k.2.2.2.2.1]; exact hreg) (by rw [inv.mask] at hg2; exact hg2)
+          have inv' : I lg (rxLine cfg t s (.ttx b)).1 :=
+            Itrans _ _ _ inv k.1 k.2.2.1 k.2.2.2.1 kd
+          have r := ih _ _ inv' (by rw [k.2.2.2.2.1]; exact hreg) (by rw [hmask] at hg2; exact hg2)
           refine ⟨?_, ?_, r.2.2⟩
-          · rw [hev]; exact NoNetwork_append (NoNetwork_append NoNetwork_nil (NoNetwork_extra hex)) r.1
+          · rw [hev]; exact Qapp _ _ (Qapp _ _ Qnil (Qextra _ hex)) r.1
           · have hc : (rxLine cfg t s (.ttx b)).1.cached = s.cached := k.2.1
             rw [← hc]; exact r.2.1
         | some p =>
           obtain ⟨c, v⟩ := p
-          simp only [cniStep] at k hev
+          simp only [cniStep] at k kd hev
           simp only [] at hg2
           by_cases hv : v = st c
           · simp only [hv, if_true] at hg2
-            have g := ginv_good cfg.lk st id mask lg s c (hagree c hg2.1) inv
-            rw [hv] at k hev
-            have inv' : GInv st id mask (fun c' => if c' = c then none else lg c') (rxLine cfg t s (.ttx b)).1 :=
-              ginv_transport st id mask _ _ _ g.1 k.1 k.2.2.1 (by rw [k.2.2.2.1, cniRx_mask])
-            have r := ih _ _ inv' (by rw [k.2.2.2.2.1]; exact hreg) (by have := hg2.2; rw [inv.mask] at this; exact this)
+            have g := Igood lg s c hg2.1 inv
+            rw [hv] at k kd hev
+            have inv' : I (fun c' => if c' = c then none else lg c') (rxLine cfg t s (.ttx b)).1 :=
+              Itrans _ _ _ g.1 k.1 k.2.2.1 (by rw [k.2.2.2.1, cniRx_mask]) kd
+            have r := ih _ _ inv' (by rw [k.2.2.2.2.1]; exact hreg) (by have := hg2.2; rw [hmask] at this; exact this)
             refine ⟨?_, ?_, r.2.2⟩
-            · rw [hev]; exact NoNetwork_append (NoNetwork_append g.2.1 (NoNetwork_extra hex)) r.1
+            · rw [hev]; exact Qapp _ _ (Qapp _ _ g.2.1 (Qextra _ hex)) r.1
             · have hc : (rxLine cfg t s (.ttx b)).1.cached = s.cached := by rw [k.2.1, g.2.2]
               rw [← hc]; exact r.2.1
           · simp only [hv, if_false] at hg2
-            have g := ginv_glitch cfg.lk st id mask lg s c v hv hg2.1 inv
-            have inv' : GInv st id mask (fun c' => if c' = c then some v else lg c') (rxLine cfg t s (.ttx b)).1 :=
-              ginv_transport st id mask _ _ _ g.1 k.1 k.2.2.1 (by rw [k.2.2.2.1, cniRx_mask])
-            have r := ih _ _ inv' (by rw [k.2.2.2.2.1]; exact hreg) (by have := hg2.2; rw [inv.mask] at this; exact this)
+            have g := Iglitch lg s c v hv hg2.1 inv
+            have inv' : I (fun c' => if c' = c then some v else lg c') (rxLine cfg t s (.ttx b)).1 :=
+              Itrans _ _ _ g.1 k.1 k.2.2.1 (by rw [k.2.2.2.1, cniRx_mask]) kd
+            have r := ih _ _ inv' (by rw [k.2.2.2.2.1]; exact hreg) (by have := hg2.2; rw [hmask] at this; exact this)
             refine ⟨?_, ?_, r.2.2⟩
-            · rw [hev]; exact NoNetwork_append (NoNetwork_append g.2.1 (NoNetwork_extra hex)) r.1
+            · rw [hev]; exact Qapp _ _ (Qapp _ _ g.2.1 (Qextra _ hex)) r.1
             · have hc : (rxLine cfg t s (.ttx b)).1.cached = s.cached := by rw [k.2.1, g.2.2]
               rw [← hc]; exact r.2.1
+
+/-- either shape, with the hypothesis that the carriers received with their station value resolve to one id -/
+theorem glitch_run (cfg : Cfg) (st : Carrier → Nat) (ok : Carrier → Bool) (id mask : Nat)
+    (hagree : ∀ c, ok c = true → (cfg.lk c (st c)).1 = id) :
+    ∀ (atoms : List Atom) (s : State) (lg : Carrier → Option Nat), GInv st id mask lg s →
+      RegularFrom s.time atoms → NoRepeatedGlitch st ok mask lg atoms →
+      NoNetwork (runAtoms cfg s atoms).2 ∧ s.cached ⊆ (runAtoms cfg s atoms).1.cached ∧
+      (runAtoms cfg s atoms).1.net.nuid = id :=
+  glitch_run_gen cfg st ok id mask (GInv st id mask) NoNetwork NoNetwork_nil (fun _ _ => NoNetwork_append)
+    (fun _ h e he => (h e he).1)
+    (fun _ _ inv => ⟨inv.nuid, inv.cd, inv.mask⟩)
+    (fun lg s s' inv hn hc hm _ => ginv_transport st id mask lg s s' inv hn hc hm)
+    (fun lg s c hok inv => ginv_good cfg st id mask lg s c (hagree c hok) inv)
+    (fun lg s c v hv hlg inv => ginv_glitch cfg st id mask lg s c v hv hlg inv)
+
+/-- the per-carrier shape: no hypothesis about ids, and not even NETWORK_ID is raised -/
+theorem glitch_run_per (cfg : Cfg) (hp : cfg.perCarrier = true) (st : Carrier → Nat) (id mask : Nat) :
+    ∀ (atoms : List Atom) (s : State) (lg : Carrier → Option Nat), PInv cfg st id mask lg s →
+      RegularFrom s.time atoms → NoRepeatedGlitch st (fun _ => true) mask lg atoms →
+      Silent (runAtoms cfg s atoms).2 ∧ s.cached ⊆ (runAtoms cfg s atoms).1.cached ∧
+      (runAtoms cfg s atoms).1.net.nuid = id :=
+  glitch_run_gen cfg st (fun _ => true) id mask (PInv cfg st id mask) Silent Silent_nil (fun _ _ => Silent_append)
+    (fun _ h => h)
+    (fun _ _ inv => ⟨inv.nuid, inv.cd, inv.mask⟩)
+    (fun lg s s' inv hn hc hm hd => pinv_transport cfg st id mask lg s s' inv hn hc hm hd)
+    (fun lg s c _ inv => pinv_good cfg hp st id mask lg s c inv)
+    (fun lg s c v hv hlg inv => pinv_glitch cfg hp st id mask lg s c v hv hlg inv)
 
 end Zvbi.Net
